@@ -19,7 +19,7 @@ RULE = ('files of BED3/BED6/FASTQ/two-line FASTA/VCF/SAM built from per-record f
         'plus integer-list selections with out-of-order interior bounded by first/last row, written unmodified; '
         'non-trivial = the program has an index, concatenate or write after a field access or a replace')
 EXHAUSTIVE = {'quick': False, 'thorough': False}
-TIE = 'correspondence (lazy three-store state machine evaluated in Coq on the same program; eager side compared with the row-list Spec)'
+TIE = 'translator+correspondence'
 ASSUMPTIONS = ['written bytes are compared lazy-vs-eager only when every record of the file is canonically spelled (C04 owns pass-through of non-canonical text); Coq decides canonicity (rec_canon)',
                'BAM is not generated (no BAM encoder in this check); float columns and Optional[int] columns mixing "." with numbers are not generated (C02/C18 own them)',
                'replacement arrays have the table length and the type the eager table itself holds for that field (StringArray, EncodedRaggedArray, int ndarray, RaggedArray of qualities, flat strand array)',
